@@ -6,7 +6,8 @@ statement (explicit stacks, caches, loops with fuel, early returns), so that a c
 change of the generated Lean definitions. Anything outside the supported subset is a hard error (exit status 3,
 message naming file / function / construct): never guessed, never skipped.
 
-usage: rust2lean.py [--repo DIR] [--out FILE] [--only name,name] [--debug-assertions] [--report]
+usage: rust2lean.py [--repo DIR] [--out FILE] [--only name,name] [--debug-assertions] [--report] [--first-only]
+(writes FILE = …/Gen/Algo.lean and, next to it, Algo2.lean with the second batch of targets)
 
 Front end (tools/rust2lean_lib): tokenizer, item scanner (bodies of functions nobody asks for are not parsed),
 recursive-descent parser, a light type inference (enough to resolve methods, `.0`, casts, indexing), and a
@@ -31,6 +32,24 @@ body can panic or mutate, function values that are not pure, `dyn`/`impl Trait` 
 enums, const generics, mutual recursion, functions returning `&mut` (e.g. `mut_cell`: its callers `set_value` /
 `unset_value` / `IndexMut` are in the shim), iteration over `HashMap`/`HashSet`, `HashMap::insert` whose result
 is used, `break`/`continue` inside an `iter_mut` loop, unary minus, BigInt subtraction, unknown macros / methods.
+SECOND BATCH (Gen/Algo2.lean) additionally uses: `crate::op_function::{and,or,imp,iff,xor,and_not}` as the regenerated
+tables `Gen.and_` … (Gen/OpTables.lean); `R: Rng` = list of recorded coin flips, `rng.gen_bool(0.5)` = `Rust.genBool`;
+`H: Hasher` = list of `(width, value)` writes; unconstrained type parameters (`{E : Type}`), `Ok::<T, E>(x)`;
+`std::cmp::Ordering`, `.cmp()` on integers and on iterators of integer triples; derived `<`/`>` on `(unsigned, bool)`;
+or-patterns without bindings; `for x in &mut v[a..b]`; `all`/`any`/`map` whose closure can panic (as explicit loops);
+`unwrap_or_else(|| …)`; `zip`; `collect` into `HashMap`/`HashSet`; `HashSet::from_iter`; `format!` with plain `{}`
+placeholders over integers/strings as data; `if let Some(r) = map.get_mut(&k) { *r = … }` (write-through alias);
+a Rust re-declaration of a `let mut` name (numbered Lean name); `&mut dyn Read` / `&mut dyn Write` as scripted byte
+devices with std's `read_exact` / `write_all` (Gen/RustShimIO.lean), `to_le_bytes`/`from_le_bytes`, `[x; n]`, `io::Error`,
+`ErrorKind`, and `Vec<u8>` / `&[u8]` passed where a `dyn Write` / `dyn Read` is expected.
+HASH ORDER: `Vec::from_iter(set)`, `set.into_iter()`, `map.into_iter()` yield values in hash order. They are typed
+`uvec`/`uiter`: only `len`, `is_empty`, `sort` (which makes the vector an ordinary one), `map`, and `collect` back into a
+hash container are accepted; indexing or iterating them is rejected.
+NOT TRANSLATED (constructs): `Bdd::{write_as_string, read_as_string, from_string}`, `Display` (the `write!` macro, `String`
+building, `str::{split, parse, retain}`, `char::is_whitespace`, `read_to_string`); `BddVariableSet::new` and
+`BddVariableSetBuilder` (`chars()`, `const` generics); the boolean-expression tokenizer/parser/evaluator (`enum`s with
+payloads, `Box`, `Peekable<Chars>`, `char` patterns); `sat_valuations`/`BddSatisfyingValuations` (struct holding iterators
+by value with lifetimes), `cardinality` (f64), `.dot` export (`write!`), `to_boolean_expression` (enum construction).
 SEMANTIC CONVENTIONS: integers are `Nat`; `a - b` panics on underflow; `as u16`/`as u32` truncate; `+`, `*`, `<<` are
 not range-checked; `debug_assert!` is a comment unless --debug-assertions (the harness is a release build);
 `format!` keeps only its template (messages are never compared); hash-map capacity / hasher are dropped.
@@ -92,6 +111,48 @@ TARGETS = [
     ('src/_impl_iterator_valuations_of_clause.rs', 'ValuationsOfClauseIterator', 'next'),
 ]
 
+VU = 'src/_impl_bdd/_impl_valuation_utils.rs'
+RO = 'src/_impl_bdd/_impl_relation_ops.rs'
+NO = 'src/_impl_bdd/_impl_nested_ops.rs'
+UT = 'src/_impl_bdd/_impl_util.rs'
+BO = 'src/_impl_bdd/_impl_boolean_ops.rs'
+VS = 'src/_impl_bdd_variable_set.rs'
+SO = 'src/_impl_bdd/_impl_sort.rs'
+SE = 'src/_impl_bdd/_impl_serialisation.rs'
+PV = 'src/_impl_bdd_partial_valuation.rs'
+BV = 'src/_impl_bdd_valuation.rs'
+# second batch (Gen/Algo2.lean)
+TARGETS2 = [
+    (VU, 'Bdd', 'first_valuation'), (VU, 'Bdd', 'last_valuation'), (VU, 'Bdd', 'first_clause'), (VU, 'Bdd', 'last_clause'),
+    (VU, 'Bdd', 'most_positive_valuation'), (VU, 'Bdd', 'most_negative_valuation'),
+    (VU, 'Bdd', 'most_fixed_clause'), (VU, 'Bdd', 'most_free_clause'), (VU, 'Bdd', 'necessary_clause'),
+    (VU, 'Bdd', 'random_valuation'), (VU, 'Bdd', 'random_clause'),
+    (BO, 'Bdd', 'and'), (BO, 'Bdd', 'or'), (BO, 'Bdd', 'imp'), (BO, 'Bdd', 'iff'), (BO, 'Bdd', 'xor'), (BO, 'Bdd', 'and_not'),
+    (NO, 'Bdd', 'binary_op_with_exists'), (NO, 'Bdd', 'binary_op_with_for_all'),
+    (RO, 'Bdd', 'var_exists'), (RO, 'Bdd', 'var_for_all'), (RO, 'Bdd', 'exists'), (RO, 'Bdd', 'for_all'),
+    (RO, 'Bdd', 'var_project'), (RO, 'Bdd', 'project'),
+    (RO, 'Bdd', 'var_select'), (RO, 'Bdd', 'select'), (RO, None, 'sorted'),
+    (RO, 'Bdd', 'var_pick'), (RO, 'Bdd', 'var_pick_random'), (RO, 'Bdd', 'pick'), (RO, 'Bdd', 'pick_random'),
+    (UT, 'Bdd', 'set_num_vars'), (UT, 'Bdd', 'rename_variables'), (UT, 'Bdd', 'rename_variable'), (UT, 'Bdd', 'substitute'),
+    (UT, 'Bdd', 'size_per_variable'),
+    (VS, 'BddVariableSet', 'new_anonymous'), (VS, 'BddVariableSet', 'var_by_name'), (VS, 'BddVariableSet', 'name_of'),
+    (VS, 'BddVariableSet', 'mk_conjunctive_clause'), (VS, 'BddVariableSet', 'mk_disjunctive_clause'),
+    (VS, 'BddVariableSet', 'mk_sat_up_to_k'), (VS, 'BddVariableSet', 'mk_sat_exactly_k'), (VS, 'BddVariableSet', 'transfer_from'),
+    (VS, 'BddVariableSet', 'mk_true'), (VS, 'BddVariableSet', 'mk_false'), (VS, 'BddVariableSet', 'mk_var'),
+    (VS, 'BddVariableSet', 'mk_not_var'), (VS, 'BddVariableSet', 'mk_literal'),
+    (VS, 'BddVariableSet', 'mk_var_by_name'), (VS, 'BddVariableSet', 'mk_not_var_by_name'),
+    ('src/_impl_bdd/_impl_dnf.rs', 'Bdd', 'mk_dnf'), ('src/_impl_bdd/_impl_cnf.rs', 'Bdd', 'mk_cnf'),
+    (VS, 'BddVariableSet', 'mk_dnf'), (VS, 'BddVariableSet', 'mk_cnf'),
+    ('src/_impl_bdd/_impl_dnf.rs', 'Bdd', '_to_optimized_dnf'), ('src/_impl_bdd/_impl_dnf.rs', 'Bdd', 'to_optimized_dnf'),
+    (SO, 'Bdd', 'cmp_size'), (SO, 'Bdd', 'cmp_cardinality'), (SO, 'Bdd', 'cmp_cardinality_strict'), (SO, 'Bdd', 'cmp_implies'),
+    (SO, 'Bdd', 'cmp_structural'),
+    (PV, 'BddPartialValuation', 'is_empty'), (PV, 'BddPartialValuation', 'cardinality'), (PV, 'BddPartialValuation', 'last_fixed_variable'),
+    (PV, 'BddPartialValuation', 'extends'), (PV, 'BddPartialValuation', 'eq'), (PV, 'BddPartialValuation', 'hash'),
+    (PV, 'BddPartialValuation', 'from'),
+    (BV, 'BddValuation', 'extends'), (BV, 'BddValuation', 'to_values'), (BV, 'BddValuation', 'try_from'), (BV, 'Bdd', 'from'),
+    (SE, 'Bdd', 'write_as_bytes'), (SE, 'Bdd', 'read_as_bytes'), (SE, 'Bdd', 'to_bytes'), (SE, 'Bdd', 'from_bytes'),
+]
+
 HEADER = '''import BddVerif.Gen.RustShim
 import BddVerif.Model.Apply
 /-!
@@ -112,6 +173,23 @@ attribute [local instance 10000] Rust.monadOutcomeInline
 '''
 
 
+HEADER2 = '''import BddVerif.Gen.Algo
+import BddVerif.Gen.RustShimIO
+import BddVerif.Gen.OpTables
+/-!
+GENERATED by tools/rust2lean.py from the Rust sources of the library — DO NOT EDIT; regenerated on every run.
+Second batch of translated functions (same conventions as Gen/Algo.lean, whose definitions it reuses).
+`crate::op_function::{and,or,…}` are the regenerated tables `Gen.and_`, `Gen.or_`, … of Gen/OpTables.lean;
+a `rand::Rng` argument is the list of recorded coin flips (`Rust.genBool`).
+-/
+set_option linter.unusedVariables false
+set_option linter.constructorNameAsVariable false
+namespace B.Gen.Algo2
+open B B.Gen B.Gen.Algo
+attribute [local instance 10000] Rust.monadOutcomeInline
+'''
+
+
 def find_target(tr, file, owner, name):
     tr.crate.load(file)
     pool = tr.crate.methods.get((owner, name), []) if owner else tr.crate.free.get(name, [])
@@ -124,8 +202,29 @@ def find_target(tr, file, owner, name):
     return cands[0]
 
 
-def generate(repo, only=None, debug_assertions=False):
-    """returns (lean text, stats); raises R2LError"""
+def _render(header, ns, stats, output):
+    parts = [header]
+    parts.append('/-! translated functions (Rust name ↦ Lean name, kind, generated lines):')
+    for q, lean, kind, n, f, ln in stats:
+        parts.append('  %s ↦ %s  [%s, %d lines]  %s:%d' % (q, lean, kind, n, f, ln))
+    parts.append('-/\n')
+    for lean, text, item in output:
+        parts.append(text)
+        parts.append('')
+    parts.append('end ' + ns)
+    return '\n'.join(parts) + '\n'
+
+
+_CACHE = {}
+
+
+def generate_all(repo, only=None, debug_assertions=False, second=True, tolerant=False):
+    """returns {'Algo.lean': (text, stats), 'Algo2.lean': (text, stats)}; raises R2LError.
+    Algo.lean holds TARGETS and their callees, Algo2.lean (which imports it) whatever TARGETS2 needs in addition."""
+    tolerant = tolerant or bool(os.environ.get('R2L_TOLERANT'))
+    key = (os.path.abspath(repo), tuple(sorted(only)) if only else None, debug_assertions, second, tolerant)
+    if key in _CACHE:
+        return _CACHE[key]
     tr = Translator(repo, debug_assertions=debug_assertions)
     for file, owner, name in TARGETS:
         if only and name not in only:
@@ -133,16 +232,36 @@ def generate(repo, only=None, debug_assertions=False):
         item = find_target(tr, file, owner, name)
         if item not in tr.sigs:
             tr.translate(item)
-    parts = [HEADER]
-    parts.append('/-! translated functions (Rust name ↦ Lean name, kind, generated lines):')
-    for q, lean, kind, n, f, ln in tr.stats:
-        parts.append('  %s ↦ %s  [%s, %d lines]  %s:%d' % (q, lean, kind, n, f, ln))
-    parts.append('-/\n')
-    for lean, text, item in tr.output:
-        parts.append(text)
-        parts.append('')
-    parts.append('end B.Gen.Algo')
-    return '\n'.join(parts) + '\n', tr.stats
+    n1 = len(tr.output)
+    res = {'Algo.lean': (_render(HEADER, 'B.Gen.Algo', tr.stats[:n1], tr.output[:n1]), tr.stats[:n1])}
+    if second:
+        tr.phase = 2
+        for file, owner, name in TARGETS2:
+            if only and name not in only:
+                continue
+            item = find_target(tr, file, owner, name)
+            if item not in tr.sigs:
+                if tolerant:
+                    try:
+                        tr.translate(item)
+                    except R2LError as e:
+                        sys.stderr.write('  [skip] %s\n' % e)
+                        tr.inprog.clear()
+                else:
+                    tr.translate(item)
+        res['Algo2.lean'] = (_render(HEADER2, 'B.Gen.Algo2', tr.stats[n1:], tr.output[n1:]), tr.stats[n1:])
+    _CACHE[key] = res
+    return res
+
+
+def generate(repo, only=None, debug_assertions=False):
+    """Gen/Algo.lean: returns (lean text, stats); raises R2LError"""
+    return generate_all(repo, only, debug_assertions, second=False)['Algo.lean']
+
+
+def generate2(repo, only=None, debug_assertions=False):
+    """Gen/Algo2.lean: returns (lean text, stats); raises R2LError"""
+    return generate_all(repo, only, debug_assertions, second=True)['Algo2.lean']
 
 
 def main(argv):
@@ -152,6 +271,7 @@ def main(argv):
     only = None
     dbg = False
     report = False
+    first_only = False
     i = 0
     while i < len(argv):
         a = argv[i]
@@ -160,8 +280,10 @@ def main(argv):
         elif a == '--only': only = set(argv[i + 1].split(',')); i += 2
         elif a == '--debug-assertions': dbg = True; i += 1
         elif a == '--report': report = True; i += 1
+        elif a == '--first-only': first_only = True; i += 1
         else:
             sys.stderr.write(__doc__); return 2
+    status = 0
     try:
         text, stats = generate(repo, only, dbg)
     except R2LError as e:
@@ -172,12 +294,25 @@ def main(argv):
     if old != text:
         with open(out, 'w') as f:
             f.write(text)
+    if not first_only:
+        out2 = out[:-5] + '2.lean'
+        try:
+            text2, stats2 = generate2(repo, only, dbg)
+            stats = stats + stats2
+        except R2LError as e:
+            sys.stderr.write('rust2lean: UNTRANSLATABLE (Algo2): %s\n' % e)
+            text2 = 'namespace B.Gen.Algo2\nend B.Gen.Algo2\n-- BROKEN TIE: %s\n' % str(e).replace('\n', ' ')
+            status = 3
+        old2 = open(out2).read() if os.path.exists(out2) else None
+        if old2 != text2:
+            with open(out2, 'w') as f:
+                f.write(text2)
     if report:
         json.dump({'file': out, 'sha256': hashlib.sha256(text.encode()).hexdigest()[:16], 'lines': text.count('\n'),
                    'functions': [{'rust': q, 'lean': l, 'kind': k, 'lines': n, 'src': '%s:%d' % (f, ln)} for q, l, k, n, f, ln in stats]},
                   sys.stdout, indent=1)
         print()
-    return 0
+    return status
 
 
 if __name__ == '__main__':
